@@ -52,7 +52,7 @@ fn main() {
         },
     };
     if matches!(tier, Tier::Thorough) {
-        explore::BFS_BUDGET_S.store(120, std::sync::atomic::Ordering::Relaxed);
+        explore::BFS_BUDGET_S.store(300, std::sync::atomic::Ordering::Relaxed);
     }
     let mut ctx = Ctx::new(&id, tier, level_of(&id));
     let res = std::panic::catch_unwind(std::panic::AssertUnwindSafe(|| -> Option<(u64, String)> {
